@@ -2,5 +2,6 @@ SPECIFICATION Spec
 CONSTANTS
   MaxMut = 1
   MaxOldMut = 1
+  Chain = FALSE
 INVARIANTS SchemasWellFormed UsableReflexive Lemmas Emit
 VIEW view
